@@ -156,7 +156,10 @@ class DeviceInfoCache:
         # get the current keys
         cache_id, cache_address = getattr(device_info, '_cache_keys', (None, None))
 
-        if (cache_id is None) or (device_info.deviceIdentifier != cache_id):
+        # (a key that was taken over by another record in the meantime is
+        # filed again as well)
+        if (cache_id is None) or (device_info.deviceIdentifier != cache_id) \
+                or (self.cache.get(cache_id) is not device_info):
             if _debug: DeviceInfoCache._debug("    - device identifier updated")
 
             # remove the old reference if it is still ours, add the new one
@@ -164,7 +167,8 @@ class DeviceInfoCache:
                 del self.cache[cache_id]
             self.cache[device_info.deviceIdentifier] = device_info
 
-        if (cache_address is None) or (device_info.address != cache_address):
+        if (cache_address is None) or (device_info.address != cache_address) \
+                or (self.cache.get(cache_address) is not device_info):
             if _debug: DeviceInfoCache._debug("    - device address updated")
 
             # remove the old reference if it is still ours (another device
